@@ -392,6 +392,18 @@ pub fn timestamp_duration_since(
         .picos
 }
 
+/// The same wrapper's OS-timer arm: two `Instant`s that lie `earlier_ns` and
+/// `later_ns` nanoseconds after one fixed instant.
+pub fn os_timestamp_duration_since(later_ns: u64, earlier_ns: u64) -> u128 {
+    let base = *VOS_BASE.get_or_init(std::time::Instant::now);
+    Timestamp::Os(base + Duration::from_nanos(later_ns))
+        .duration_since(
+            Timestamp::Os(base + Duration::from_nanos(earlier_ns)),
+            Timer::Os,
+        )
+        .picos
+}
+
 pub fn fine_from_duration(duration: Duration) -> u128 {
     FineDuration::from(duration).picos
 }
